@@ -1233,6 +1233,20 @@ fn p10(p: &mut ProbeReport, r: &mut Rng, budget: usize) {
         p.notes.insert("exhaustive_sequences".into(), total);
         p.notes.insert("exhaustive_max_len".into(), maxlen);
     }
+    // hits that tie on every score component (same rating, same shape of title): their order in a lived-in store must
+    // be the order a fresh store gives, whatever was asked before
+    for code in ["none", "en"] {
+        let recs: Vec<(usize, String, usize)> = vec![(1, "red mailbox".into(), 5), (2, "red toolbox".into(), 5), (3, "red icebox".into(), 5), (4, "tan toolbox".into(), 5)];
+        let st = Scn { lang: code.into(), recs: recs.clone(), limit: 10 }.build();
+        let mut ops: Vec<Op> = vec![];
+        for q in ["toolbox", "red", "icebox", "red", "mailbox", "red", "tan", "toolbox", "box", "red"] {
+            ops.push(Op::Search(q.to_string()));
+            let got = search_results(&st, q);
+            let want = fresh_thread_search(code, &recs, 10, &("[".to_string(), "]".to_string()), q);
+            p.eval(&format!("tied|{}|{}|{}", code, ops.len(), q), true);
+            if got != want { p.fail(format!("records that tie on every score: after the earlier queries search {:?} returns {:?} but a freshly built store returns {:?}", q, ids(&got), ids(&want)), Scn { lang: code.into(), recs: recs.clone(), limit: 10 }.case("c10-tied", ops.clone())); break; }
+        }
+    }
     // the same statement through the top-level API: every sequence up to a fixed length over {add, limit 1, limit 25,
     // markers, search "pank", search ""} on one id, each result buffer compared with a stand-alone store on a fresh thread
     {
